@@ -152,6 +152,7 @@ class Ob:
             return 'unsat'
         if res == z3.sat:
             self.sat += 1
+            self.sat_labels = getattr(self, 'sat_labels', {}); self.sat_labels[label] = self.sat_labels.get(label, 0) + 1
             m = model_dict(s.model())
             self.cex.append({'ob': self.oid, 'label': label, 'role': role or self.role, 'model': m, 'replay': replay})
             return 'sat'
@@ -198,6 +199,8 @@ class Ob:
         self.errors.append(msg)
 
     def summary(self):
+        for k, v in getattr(self, 'sat_labels', {}).items():
+            self.notes.append(f'SAT x{v}: {k}')
         return {k: getattr(self, k) for k in ('oid', 'desc', 'functions', 'bounds', 'queries', 'unsat', 'sat', 'unknown',
                                               'witness_sat', 'witness_fail', 'paths', 'notes', 'errors')} | {
             'solver_s': round(self.solver_s, 3), 'cex': self.cex, 'samples': self.samples}
